@@ -17,6 +17,7 @@ import (
 	"sort"
 	"strings"
 
+	sdkmath "cosmossdk.io/math"
 	rmath "github.com/regen-network/regen-ledger/types/v2/math"
 
 	"verif/harness/internal/common"
@@ -1238,6 +1239,61 @@ func main() {
 	for _, p := range extremePairs {
 		e.hist["shape:extreme-pair"]++
 		e.extremePair(p[0], p[1])
+	}
+	// 3b. sdk.NewIntFromString (math/big base-0 syntax: 0x / 0o / 0b / leading-0 octal, '_' separators; <= 256 bits),
+	// the reader of MsgTake.amount and MsgBurnRegen.amount
+	sdkIntFixed := []string{"", "0", "00", "000", "7", "007", "010", "0777", "08", "09", "0_7", "0_", "_0", "0__7", "0x", "0x10", "0X1f", "0xg", "0x_1", "0x1_", "0x_",
+		"0b101", "0B2", "0b", "0o17", "0O8", "0o", "1_000", "1__0", "_1", "1_", "1_000_000", "+010", "-010", "+0x10", "-0x10", "+", "-", "+-1", "--1", "1e3", "1.0", "1.", ".1",
+		" 1", "1 ", "0 ", "1a", "a", "0a", "0z", "1000000", "18446744073709551616",
+		"115792089237316195423570985008687907853269984665640564039457584007913129639935", "115792089237316195423570985008687907853269984665640564039457584007913129639936",
+		"-115792089237316195423570985008687907853269984665640564039457584007913129639935", "-115792089237316195423570985008687907853269984665640564039457584007913129639936",
+		"0xffffffffffffffffffffffffffffffffffffffffffffffffffffffffffffffff", "0x10000000000000000000000000000000000000000000000000000000000000000",
+		"0b1_0", "0o_7_7", "0_0", "0_8", "00x1", "0x0x1", "1x0", "\u0661", "１"}
+	sdkIntAlphabet := []byte("0123456789_abxXoOBfF+-e. 078")
+	nSdk := 400
+	if *tier == "thorough" {
+		nSdk = 8000
+	}
+	gI := &gen{root.Fork()}
+	emitSdk := func(s string) {
+		e.hist["shape:sdk-int"]++
+		v, ok := sdkmath.NewIntFromString(s)
+		if !ok {
+			e.emit("OpSdkInt", []string{s}, 0, "(RErr EParse)", map[string]interface{}{"error_class": "EParse", "error": "not ok"})
+			return
+		}
+		e.emit("OpSdkInt", []string{s}, 0, "(RZ "+common.CoqZ(v.BigInt())+")", map[string]interface{}{"z": v.String()})
+	}
+	for _, s := range sdkIntFixed {
+		emitSdk(s)
+	}
+	for i := 0; i < nSdk; i++ {
+		n := 1 + gI.r.Intn(8)
+		if gI.r.Chance(1, 10) {
+			n = 60 + gI.r.Intn(30)
+		}
+		var bs []byte
+		switch gI.r.Intn(6) {
+		case 0:
+			bs = append(bs, "0x"...)
+		case 1:
+			bs = append(bs, '0')
+		case 2:
+			bs = append(bs, "0b"...)
+		case 3:
+			bs = append(bs, "0o"...)
+		}
+		if gI.r.Chance(1, 6) {
+			bs = append([]byte{"+-"[gI.r.Intn(2)]}, bs...)
+		}
+		for j := 0; j < n; j++ {
+			if gI.r.Chance(4, 5) {
+				bs = append(bs, "0123456789"[gI.r.Intn(10)])
+			} else {
+				bs = append(bs, sdkIntAlphabet[gI.r.Intn(len(sdkIntAlphabet))])
+			}
+		}
+		emitSdk(string(bs))
 	}
 	// 4. structured stream
 	for i := 0; i < nStructured; i++ {
